@@ -94,6 +94,12 @@ void h_table_end (void)
 	for (n = 0; _vbi_service_table[n].id != 0; ++n)
 		;
 	OBL (n == NROWS_EXPECTED, "bs.case split covers every row of _vbi_service_table");
+	/* vbi3_raw_decoder_add_services() masks the blank-VBI pseudo services out before it configures
+	   slicers (services &= ~(VBI_SLICED_VBI_525 | VBI_SLICED_VBI_625)): exactly rows 10 and 17,
+	   for which the permit => set_params lemma is therefore not needed */
+	for (n = 0; n < NROWS_EXPECTED; ++n)
+		OBL ((0 != (_vbi_service_table[n].id & (VBI_SLICED_VBI_525 | VBI_SLICED_VBI_625))) == (n == 10 || n == 17),
+		     "bs.the blank VBI rows are rows 10 and 17 only");
 }
 
 /* pixel formats outside the enumerated cases are refused */
@@ -133,6 +139,8 @@ void h_permit (void)
 	unsigned int spl;
 
 	ASSUME (par->id != 0);
+	/* rows that vbi3_raw_decoder_add_services() configures a slicer for (raw_decoder.c: blank VBI masked out) */
+	ASSUME (0 == (par->id & (VBI_SLICED_VBI_525 | VBI_SLICED_VBI_625)));
 	ASSUME (in.sp.sampling_rate > 0 && in.sp.bytes_per_line > 0);
 	/* a pixel format the bit slicer implements (VBI_PIXFMT_PAL8 and values
 	   that are no enumerator pass _vbi_sampling_par_valid_log: residual) */
